@@ -50,6 +50,45 @@ chk("C15", "translation_validation",
     "Strings over Unicode scalar values up to U+2FFFF; ints below CPython's 4300-digit str() limit; concrete salt list.",
     "symbolic execution (pysym) + z3 QF_FP/strings: infeasibility of every exception path", "DESIGN.md section 6 C15")
 
+chk("C03", "translation_validation",
+    "deterministic_choice and CPython's bisect are executed from source for each weight vector of a family with a symbolic "
+    "32-bit hash position and bit-precise binary64 arithmetic; z3 decides per leaf that no position outside the exact "
+    "rational share (one grid point tolerance) selects the group, that zero-weight groups are unreachable, that u=0 selects "
+    "the first positive group and that groups spanning >= 3 grid points are selectable; population/weights alignment per program.",
+    "Concrete weight vectors (family up to 64 groups, 1e-9..1e9), all 2^32 positions each; symbolic weights out of reach "
+    "(symbolic x symbolic fp.mul); bisect.py stands for the C accelerator; hash grid by lemma L1 (also run here).",
+    "symbolic execution (pysym) + z3 QF_FP/BV per leaf", "DESIGN.md section 6 C03")
+
+chk("C10", "translation_validation",
+    "(i) key lemmas: the hashed string is the same scheme key in every branch and the choice function hashes exactly its "
+    "input_id; (ii) for ordered pairs of weight vectors z3 decides, bit-precisely and for all 2^32 positions, that no unit is "
+    "assigned a later group under the second vector.",
+    "Pairs from a finite family (percentage/decimal ramps, scaled, n<=3 alphabet pairs, long ramps).",
+    "symbolic execution (pysym) + z3 QF_FP/BV on pairs of path conditions sharing k", "DESIGN.md section 6 C10")
+
+chk("C11", "model_checking",
+    "One inductive step of recompile/__init__/__call__, executed from source from an arbitrary evaluator state satisfying "
+    "the representation invariant, with a symbolic new text and an abstract compile outcome; z3 decides per path that the "
+    "post-state is (new checksum, new function) on success and the unchanged pre-state on failure, that failure raises, that "
+    "the unchanged text is a no-op and that nothing outside self is written.",
+    "MD5 collision-free on texts; compile step abstracted into four outcomes; induction over histories argued in DESIGN.md.",
+    "symbolic execution (pysym) of the evaluator class + z3 EUF/BV, inductive step", "DESIGN.md section 6 C11")
+
+chk("C16", "translation_validation",
+    "Obligations (a)-(f) of the random.choices-style contract as solver queries over symbolic executions of "
+    "deterministic_choice (and CPython's random.choices from source): index range, no argument mutation (effect tracking), "
+    "weights vs cum_weights, no weights vs equal weights per n, error partition incl. symbolic totals, forwarding for "
+    "input_id=None and no zero-weight draw.",
+    "Population sizes and weight vectors from finite lists (n up to 2^20+1 for the range obligation); all 2^32 positions each.",
+    "symbolic execution (pysym) + z3 QF_FP/BV", "DESIGN.md section 6 C16")
+
+chk("C18", "translation_validation",
+    "probit and confidence_interval executed from source over the reals: z3 NRA decides lower<=upper, radicand>=0, equality "
+    "with the textbook Agresti-Coull/Wald formulas over the module's own z, narrowing in n and widening in z (root-free on "
+    "squares, portfolio of strategies), probit symmetry/sign/monotonicity from hand-instantiated log axioms, and the method dispatch.",
+    "Exact reals instead of binary64; log uninterpreted with three axioms; NOT claimed: z >= true normal quantile (transcendental).",
+    "symbolic execution (pysym, exact-real mode) + z3 NRA/nlsat portfolio", "DESIGN.md section 6 C18")
+
 NOT_APPLICABLE = {
     "C04": "statistical chi-square claim about MD5 output on concrete populations: not a forall-claim a solver can "
            "decide, and MD5's 64 rounds are a non-target; structural preconditions are decided under C09/C12",
